@@ -655,6 +655,10 @@ pub struct MockIssue {
     /// decoy digests stay random in the mock build and must not touch the salt queue
     #[serde(default)]
     pub decoys: bool,
+    /// while this issuance runs, another thread of the application holds the SALTS lock for a
+    /// moment (it only looks at the queue): the issuer has to wait for it, nothing else may change
+    #[serde(default)]
+    pub contended: bool,
 }
 
 #[derive(Clone, Debug, Serialize, Deserialize, PartialEq)]
@@ -729,7 +733,7 @@ pub fn gen_c16(rng: &mut Rng, _tier: Tier) -> Result<Value, serde_json::Error> {
             1 => gen::gen_strategy(rng, &claims),
             _ => Strat::All,
         };
-        issuances.push(MockIssue { claims, strat, fmt: rand_fmt(rng), node: rng.usize(2), decoys: rng.chance(1, 4) });
+        issuances.push(MockIssue { claims, strat, fmt: rand_fmt(rng), node: rng.usize(2), decoys: rng.chance(1, 4), contended: rng.chance(1, 12) });
     }
     // queue comfortably longer than needed (an empty queue panics by design of the mock build)
     let qlen = 400;
@@ -746,6 +750,102 @@ pub fn gen_c16(rng: &mut Rng, _tier: Tier) -> Result<Value, serde_json::Error> {
 #[cfg(not(feature = "mock"))]
 pub fn execute_c16(_scn_v: &Value) -> RunReport {
     RunReport { harness_error: Some("C16 scenarios need the sdsim-mock binary (sd-jwt-rs built with feature mock_salts)".into()), ..Default::default() }
+}
+
+/// Issue while another node holds the process-wide SALTS lock across a scheduling point: the
+/// issuer node blocks on the real mutex (the runtime notices, takes the baton back and lets the
+/// lock holder finish), then completes. Returns what `World::issue` would have returned.
+#[cfg(feature = "mock")]
+#[allow(clippy::too_many_arguments)]
+fn contended_issue(w: &mut World, issuer_node: usize, other_node: usize, ih: &world::IssuerHandle, key: &str, is: &MockIssue, cx: &mut Ctx, count: bool) -> Out<String> {
+    use crate::rt::YieldKind;
+    w.rt.detect_blocked = true;
+    // the other thread: lock, look, (scheduling point), unlock
+    let inspector: Job = Box::new(|| {
+        let g = sd_jwt_rs::utils::SALTS.lock().unwrap_or_else(|e| e.into_inner());
+        crate::rt::yield_point(YieldKind::Explicit);
+        let n = g.len();
+        drop(g);
+        Box::new(n) as JobOut
+    });
+    w.rt.submit(other_node, inspector);
+    let _ = w.rt.step(other_node); // now parked inside the critical section
+    let ih2 = ih.clone();
+    let (claims, strat, decoys, fmt) = (is.claims.clone(), is.strat.clone(), is.decoys, is.fmt);
+    let job: Job = Box::new(move || {
+        let mut g = ih2.lock().unwrap_or_else(|e| e.into_inner());
+        let r = match g.get().issue_sd_jwt(claims, world::strat_to_lib(&strat), None, decoys, fmt.lib()) {
+            Ok(s) => Out::Ok(s),
+            Err(e) => {
+                let variant: &'static str = (&e).into();
+                Out::Err { variant: variant.to_string(), msg: e.to_string() }
+            }
+        };
+        Box::new(r) as JobOut
+    });
+    w.rt.submit(issuer_node, job);
+    let mut result: Option<Result<JobOut, crate::rt::PanicInfo>> = None;
+    let mut blocked = false;
+    // run the issuer until it finishes or blocks on the lock
+    loop {
+        match w.rt.step(issuer_node) {
+            Step::Yielded(_) => continue,
+            Step::Finished(r) => {
+                result = Some(r);
+                break;
+            }
+            Step::Blocked => {
+                blocked = true;
+                break;
+            }
+        }
+    }
+    // let the lock holder finish
+    loop {
+        match w.rt.step(other_node) {
+            Step::Finished(_) => break,
+            _ => continue,
+        }
+    }
+    // the issuer now runs on; collect it
+    while result.is_none() {
+        if let Some(r) = w.rt.try_collect(issuer_node) {
+            result = Some(r);
+            break;
+        }
+        let runnable = w.rt.runnable();
+        if runnable.contains(&issuer_node) {
+            if let Step::Finished(r) = w.rt.step(issuer_node) {
+                result = Some(r);
+            }
+        } else if !w.rt.wait_for_blocked(10_000) {
+            break;
+        }
+    }
+    w.rt.detect_blocked = false;
+    if count {
+        cx.rep.count("fault.salts_lock_held_by_another_thread");
+        if blocked {
+            cx.rep.count("probe.issuer_waited_for_salts_lock");
+        }
+    }
+    w.ops += 1;
+    let out: Out<String> = match result {
+        Some(Ok(o)) => match o.downcast::<Out<String>>() {
+            Ok(b) => *b,
+            Err(_) => Out::Err { variant: "harness".into(), msg: "unexpected job output".into() },
+        },
+        Some(Err(p)) => Out::Panic(p),
+        None => Out::Err { variant: "harness".into(), msg: "issuer never finished".into() },
+    };
+    seams::log("issue", out.describe().as_bytes());
+    if let Out::Ok(s) = &out {
+        seams::log("issued", s.as_bytes());
+        if let Some(m) = Message::parse(s, is.fmt) {
+            w.signed_by.entry(key.to_string()).or_default().push(m.jwt());
+        }
+    }
+    out
 }
 
 #[cfg(feature = "mock")]
@@ -783,7 +883,11 @@ pub fn execute_c16(scn_v: &Value) -> RunReport {
         let mut outs = Vec::new();
         for (j, is) in scn.issuances.iter().enumerate() {
             let nd = is.node % 2;
-            let out = w.issue(nodes[nd], &ih[nd], &scn.key, &is.claims, &is.strat, None, is.decoys, is.fmt);
+            let out = if is.contended {
+                contended_issue(&mut w, nodes[nd], n_h, &ih[nd], &scn.key, is, &mut cx, pass == 0)
+            } else {
+                w.issue(nodes[nd], &ih[nd], &scn.key, &is.claims, &is.strat, None, is.decoys, is.fmt)
+            };
             if pass == 0 {
                 cx.rep.evaluations += 1;
             }
